@@ -854,6 +854,8 @@ class EquivPos1(Macro):
 
     def eval(self, args, prevs=None):
         arg1, arg2, arg3 = args
+        if not (arg1.is_not() and arg1.arg.is_equals()):
+            raise VeriTException("equiv_pos1", "unexpected goal %s" % Or(*args))
         eq_tm = arg1.arg
         if eq_tm.arg1 == arg2 and Not(eq_tm.arg) == arg3:
             return Thm(Or(*args))
@@ -873,6 +875,8 @@ class EquivPos2(Macro):
 
     def eval(self, args, prevs=None):
         arg1, arg2, arg3 = args
+        if not (arg1.is_not() and arg1.arg.is_equals()):
+            raise VeriTException("equiv_pos2", "unexpected goal %s" % Or(*args))
         eq_tm = arg1.arg
         if Not(eq_tm.arg1) == arg2 and eq_tm.arg == arg3:
             return Thm(Or(*args))
